@@ -682,6 +682,8 @@ class LineEval:
             seq = list(it.keys())
         elif isinstance(it, DictItems):
             seq = list(it.items)
+        elif isinstance(it, EnumV):
+            seq = [it.member(m) for m in it.members]          # iterating an enumeration class yields its members in definition order
         elif isinstance(it, (InputsTok, ValuesTok)):
             self.event('access', f'iteration over the {"input" if isinstance(it, InputsTok) else "value"} accessor', st, rel)
             return
